@@ -689,6 +689,30 @@ def decodeBytecodeF (C : Ctx) (conv : BC → Res BC) (mods : Mods) (fuel : Nat) 
       (fixObjects mods bc : Res _)
     else (fail "unsupported version" : Res _)
 
+/-- outer loop of `convBytecodeV1ToV2` (encoder/v1.go): the per-function converter
+    `convCompFuncV1ToV2` (property C11) is applied to `bc.Main` (a nil Main is left alone) and
+    then to every `*CompiledFunction` among the constants, top level only, in index order;
+    the first error stops the conversion.  Kept separate from the rest of the model: the
+    per-function converter itself is the parameter `convCF`. -/
+def convConsts (convCF : CF → Res CF) : List Obj → Res (List Obj)
+  | [] => .ok []
+  | .compiledFunction f :: rest => do
+    let f' ← convCF f
+    let r ← convConsts convCF rest
+    pure (.compiledFunction f' :: r)
+  | o :: rest => do
+    let r ← convConsts convCF rest
+    pure (o :: r)
+
+def liftConv (convCF : CF → Res CF) (bc : BC) : Res BC := do
+  let main ← (match bc.main with
+    | none => .ok none
+    | some f => do let f' ← convCF f; pure (some f'))
+  let consts ← (match bc.constants with
+    | none => .ok none
+    | some cs => do let cs' ← convConsts convCF cs; pure (some cs'))
+  pure { bc with main := main, constants := consts }
+
 def decodeBytecode (C : Ctx) (conv : BC → Res BC) (mods : Mods) (data : Bytes) : DM BC :=
   decodeBytecodeF C conv mods (3 * data.length + 16) data
 
